@@ -169,6 +169,15 @@ func runReal(sc RealScenario, dir string) world.Verdict {
 	if ok1 && ok2 {
 		return world.Fail("C13/real/shutdown-deadlock", "FullNode.Run does not return after the stop (%s): it waits for its workers while %s is parked forever in the send of its error report (observed twice, 3 s apart, 30 s after the stop)", sc.Stop, loop)
 	}
+	// a loop that keeps EXECUTING (never waits) and ignores the stop request: same goroutine found running in
+	// four goroutine dumps over 22 s, more than 30 s after the stop
+	if fn := world.BusyLoop(); fn != "" {
+		select {
+		case <-done:
+		default:
+			return world.Fail("C13/real/stop-ignored-by-busy-loop", "FullNode.Run does not return after the stop (%s): %s has been executing without ever waiting (same goroutine in four goroutine dumps over 22 s, more than 30 s after the stop request)", sc.Stop, fn)
+		}
+	}
 	// slow, but not provably stuck: inconclusive, never a violation (no wall-clock verdicts)
 	return world.Verdict{Excluded: true, Labels: []string{"real:slow-shutdown-inconclusive"}}
 }
